@@ -41,7 +41,7 @@ var c09Params = []string{
 func H_C09_params() {
 	vrtMaxAlloc(16)
 	vrtBudget(60000)
-	vrtSpec(2, 1, 3, "x", smASCII, nfInt, 0)
+	vrtSpec(tq(2, 3), 1, tq(3, 4), "x", smASCII, nfInt, 0)
 	vrtNumRange(-9223372036854775807-1, 9223372036854775807)
 	k := vrtChoose("expr", len(c09Params))
 	vrtNote("template:" + c09Params[k])
